@@ -152,6 +152,45 @@ func (c *Check) RequireCall(fn *ssa.Function, rule, name, pattern string, target
 	return true
 }
 
+// RequireCallee: every path from entry to a success exit of fn passes a call that resolves statically to
+// the function with key calleeKey.
+func (c *Check) RequireCallee(fn *ssa.Function, rule, name, calleeKey string) bool {
+	c.touch(fn)
+	construct := name + " @ " + FuncKey(fn)
+	var matched []ssa.Instruction
+	for _, ci := range callsIn(fn) {
+		if _, isDefer := ci.(*ssa.Defer); isDefer {
+			continue
+		}
+		if _, isGo := ci.(*ssa.Go); isGo {
+			continue
+		}
+		if g := ci.Common().StaticCallee(); g != nil && FuncKey(g) == calleeKey {
+			matched = append(matched, ci)
+		}
+	}
+	if len(matched) == 0 {
+		c.Violated(rule, construct, c.p.Pos(fn.Pos()), "no call of "+calleeKey+" reason=not-established")
+		return false
+	}
+	ps := &PathSearch{Fn: fn, AvoidInstr: instrSet(matched), IsTarget: successTargets(fn)}
+	if t, path := ps.Find(); t != nil {
+		c.Violated(rule, construct, c.p.InstrPos(t), "a path reaches a success exit without calling "+calleeKey, c.p.describePath(path)...)
+		return false
+	}
+	c.Held(rule, construct, c.p.InstrPos(matched[0]), "called on every path to a success exit")
+	return true
+}
+
+// HookRuns: each function of the chain calls the next one on every path to its success exits (a block hook that
+// skips a step silently disables everything the step is responsible for).
+func (c *Check) HookRuns(rule string, chain ...string) {
+	for i := 0; i+1 < len(chain); i++ {
+		short := chain[i+1][strings.LastIndex(chain[i+1], ".")+1:]
+		c.RequireCallee(c.p.MustFn(chain[i]), rule, "hook-runs "+short, chain[i+1])
+	}
+}
+
 // FindCalls returns call instructions whose rendering matches.
 func (p *Prog) FindCalls(fn *ssa.Function, pattern string) []ssa.CallInstruction {
 	re := regexp.MustCompile(pattern)
